@@ -189,3 +189,56 @@ def project(objs, extra=None, docof=True):
 
 def core(st):
     return {f: st[f] for f in ("kind", "kids", "plist", "par", "name")}
+
+
+# ---------------------------------------------------------------------------------------
+# full projection: structure + every attribute + deep value lists + id tokens
+import re as _re
+_CANON = _re.compile(r"^[0-9a-f]{8}-[0-9a-f]{4}-[0-9a-f]{4}-[0-9a-f]{4}-[0-9a-f]{12}$")
+SEC_ATTRS = ("type", "definition", "reference", "repository", "link", "include", "sec_cardinality", "prop_cardinality")
+PROP_ATTRS = ("dtype", "unit", "uncertainty", "definition", "reference", "dependency", "dependency_value",
+              "value_origin", "val_cardinality")
+DOC_ATTRS = ("author", "version", "date", "repository")
+
+
+def _s(v):
+    return "none" if v is None else repr(v)
+
+
+def deep_vals(p):
+    """the stored values through the public getter, nested lists kept nested (all leaves as repr strings)"""
+    out = []
+    for v in p.values:
+        if isinstance(v, list):
+            out.append({"t": "list", "e": [_s(x) for x in v]})
+        else:
+            out.append({"t": type(v).__name__, "e": [_s(v)]})
+    return out
+
+
+class IdTok(object):
+    """canonical id strings -> i1, i2, ... by first appearance; anything else -> bad:<repr>"""
+    def __init__(self):
+        self.m = {}
+    def __call__(self, s):
+        if isinstance(s, str) and _CANON.match(s):
+            return self.m.setdefault(s, "i%d" % (len(self.m) + 1))
+        return "bad"
+
+
+def project_full(objs, idtok, names_raw=True):
+    """structure (as project) + attrs/vals/id per handle; names are the raw strings."""
+    st, objs = project(objs, docof=False)
+    st["attrs"], st["vals"], st["id"] = {}, {}, {}
+    for h, o in objs.items():
+        k = st["kind"][h]
+        if o is None or k in ("unborn", "other"):
+            st["attrs"][h], st["vals"][h], st["id"][h] = {}, [], "none"
+            continue
+        names = DOC_ATTRS if k == "doc" else SEC_ATTRS if k == "sec" else PROP_ATTRS
+        st["attrs"][h] = {a: _s(getattr(o, a)) for a in names}
+        st["vals"][h] = deep_vals(o) if k == "prop" else []
+        st["id"][h] = idtok(o.id)
+        if names_raw and k in ("sec", "prop"):
+            st["name"][h] = "empty" if o.name in (None, "") else ("#id" if o.name == o.id else str(o.name))
+    return st, objs
